@@ -19,6 +19,7 @@ type Top struct {
 	Map      *MapScripts `json:"map,omitempty"`
 	Raw      *Raw        `json:"raw,omitempty"`
 	Const    *Const      `json:"const,omitempty"`
+	Inj      bool        `json:"inj,omitempty"` // C20: this node is the injected fault
 }
 
 type Script struct {
@@ -104,6 +105,7 @@ type Stmt struct {
 	Switch *Switch `json:"switch,omitempty"`
 	PS     *PSStmt `json:"ps,omitempty"`
 	Span   int     `json:"-"`
+	Inj    bool    `json:"inj,omitempty"`
 }
 
 // Cmd is a command statement. "end", "return" and "goto" are commands too.
@@ -160,6 +162,7 @@ type Case struct {
 	IsDefault bool     `json:"default,omitempty"`
 	Body      *Block   `json:"body"`
 	Span      int      `json:"-"`
+	Inj       bool     `json:"inj,omitempty"`
 }
 
 // Expr: K = and or not paren leaf
